@@ -19,6 +19,8 @@ def run(chk):
     r = tv("Trace_Decode", "Trace_Decode.cfg", t, reset_events=("Decode",), prefix_events=("Config",), shards=12, tag="C14")
     chk.add_tv("classify", r)
     for rj in r["rejects"]:
+        if recorder_level_reject(chk, rj):
+            continue
         d = rj["diag"]
         try:
             d = json.loads(d)
